@@ -966,7 +966,11 @@ impl Rt {
                     self.declare_import(scope, use_item)?
                 }
                 Item::Module(module) => {
-                    self.declare_imports(scope, &module.children)?
+                    let scope = self
+                        .type_checker
+                        .get_scope_of(scope, module.ident)
+                        .unwrap();
+                    self.declare_imports(scope, &module.children)?;
                 }
             }
         }
